@@ -1,11 +1,86 @@
 import PymtlVerif.Driver.Sexp
+import PymtlVerif.Model.Scc
 /-!
 Handler `scc`: executable face of `Model/Scc.lean` (Kosaraju SCC partition + SCC-level topological sort of
-DynamicSchedulePass / Mamba2020Pass / OpenLoopCLPass). Stub, filled by its builder.
+DynamicSchedulePass / Mamba2020Pass / OpenLoopCLPass).
+
+Requests (vertices are natural numbers; `verts` is the iteration order of `G.keys()`, the adjacency lists are in
+the order the edges are listed, as built by `G[u].append(v); G_T[v].append(u)`):
+
+* `scc run (verts v…) (edges (u v)…)` →
+  `run (po v…) (sccs (v…)…) (vscc (v i)…) (gnew (j…)…) (lifo i…) (fifo i…) (pred (i p|none)…)`
+  — `PO`, the groups in creation order (members in insertion order), `v_SCC` by vertex order, `G_new[i]` in insertion
+  order for `i = 0 … len(SCCs)-1`, `scc_schedule` with `Q.pop()` (DynamicSchedulePass) and with `Q.pop(0)`
+  (OpenLoopCLPass), `scc_pred` of the `Q.pop()` run by group index;
+* `scc topo <lifo|fifo> (adj (j…)…)` → `topo (sched i…) (pred (i p|none)…)` — the worklist sort on a given `G_new`
+  whose sets are iterated in the given order (the real CPython set order is supplied by the harness);
+* `scc check (verts v…) (edges (u v)…) (groups (v…)…) (order i…)` → `check <partition> <strong> <acyclic> <order>`
+  — the executable checkers evaluated on a real result.
+
+A vertex that is listed twice, or an edge with an end outside `verts`, is a malformed request (`bad-op`): the code
+builds `G` from `V` and only keeps constraints with both ends in `V`.
 -/
 namespace PV.Driver.Scc
-open PV
+open PV PV.Scc
 
-def handle (_args : List Sexp) : Option String := none
+def edge? (x : Sexp) : Option (Nat × Nat) :=
+  match x with
+  | .list [a, b] => do let u ← a.nat?; let v ← b.nat?; pure (u, v)
+  | _ => none
+
+def tagged? (tag : String) (x : Sexp) : Option (List Sexp) :=
+  match x with
+  | .list (.atom t :: rest) => if t == tag then some rest else none
+  | _ => none
+
+def graph? (vs es : Sexp) : Option (List Nat × List (Nat × Nat)) := do
+  let V ← (← tagged? "verts" vs).mapM Sexp.nat?
+  let E ← (← tagged? "edges" es).mapM edge?
+  if decide V.Nodup && E.all (fun e => decide (e.1 ∈ V) && decide (e.2 ∈ V)) then pure (V, E) else none
+
+def lists (xs : List (List Nat)) : String := " ".intercalate (xs.map natsToString)
+def nats (xs : List Nat) : String := " ".intercalate (xs.map toString)
+
+def predStr (n : Nat) (pred : List (Nat × Option Nat)) : String :=
+  " ".intercalate ((List.range n).map (fun i =>
+    match pred.lookup i with
+    | some (some p) => s!"({i} {p})"
+    | some none => s!"({i} none)"
+    | none => s!"({i} unset)"))
+
+def pick? (s : Sexp) : Option (List Nat → List Nat → Nat) :=
+  match s with
+  | .atom "lifo" => some pickLast
+  | .atom "fifo" => some pickFirst
+  | _ => none
+
+def handle (args : List Sexp) : Option String :=
+  match args with
+  | [.atom "run", vs, es] => do
+    let (V, E) ← graph? vs es
+    let k := kosaraju (adjOf E) (adjTOf E) V
+    let n := k.sccs.length
+    let t := topo pickLast k.gn n
+    pure s!"run (po {nats k.po}) (sccs {lists k.sccs}) (vscc {" ".intercalate (V.map (fun v => s!"({v} {vscc k.vmap v})"))}) (gnew {lists ((List.range n).map k.gn)}) (lifo {nats t.out}) (fifo {nats (sccSchedule pickFirst k.gn n)}) (pred {predStr n t.pred})"
+  | [.atom "topo", p, adj] => do
+    let pick ← pick? p
+    let rows ← (← tagged? "adj" adj).mapM Sexp.nats?
+    let n := rows.length
+    if !rows.all (fun r => r.all (fun j => decide (j < n))) then none
+    let gn : Graph := fun i => rows.getD i []
+    let t := topo pick gn n
+    pure s!"topo (sched {nats t.out}) (pred {predStr n t.pred})"
+  | [.atom "check", vs, es, gs, ord] => do
+    let (V, E) ← graph? vs es
+    let groups ← (← tagged? "groups" gs).mapM Sexp.nats?
+    let order ← (← tagged? "order" ord).mapM Sexp.nat?
+    let G := adjOf E
+    let GT := adjTOf E
+    let p := partitionB V groups
+    let s := groups.all (stronglyB G GT)
+    let a := acyclicB E groups
+    let o := orderPermB groups order && orderTopoB E groups order
+    pure s!"check {b2s p} {b2s s} {b2s a} {b2s o}"
+  | _ => none
 
 end PV.Driver.Scc
